@@ -202,6 +202,17 @@ class C07(Prop):
                     c['market']['adjust'] = rng.random() < 0.3
                     c['mode_future'] = 'remove'
                     c['stream'] += ':open-bar-at-cut'
+            if c['market']['kind'] == 'csv' and rng.random() < 0.25:
+                # a bar after the cut repeats, figure for figure, a bar on or before it (flat or quantised markets do that)
+                names = sorted(c['market']['assets'])
+                a_ = rng.choice(names)
+                rows_ = c['market']['assets'][a_]
+                early = [r for r in rows_ if r[0] <= c['T'] and None not in r[1:]]
+                late_ = [r for r in rows_ if r[0] > c['T']]
+                if early and late_:
+                    src, dst = rng.choice(early[-6:]), rng.choice(late_)
+                    dst[1], dst[2], dst[3] = src[1], src[2], src[3]
+                    c['stream'] += ':repeated-bar-after-the-cut'
             c['market2'] = future_rewrite(rng, c['market'], c['T'], c['mode_future'])
             c['mode'] = 'pair'
             if c['market']['kind'] == 'csv' and rng.random() < 0.35:
